@@ -59,6 +59,7 @@ CATALOGUE = [
     ("is_linkable_reads_all_data", "C02", "model/dataset_group.py", "            if label not in self.dataset_models:\n", "            if False:\n", 1),
     ("weight_transposed_by_shape", "C03", "optimization/optimization_group.py", "            if result_dataset.data.dims[0] != model_dimension:\n", "            if weight.shape != result_dataset.data.shape:\n", 1),
     ("pfid_full_rate_vectors", "C07", "builtin/megacomplexes/pfid/pfid_megacomplex.py", "        (left_shifted_axis[:, None] - dk[neg_idx]) / -sqwidth\n", "        (left_shifted_axis[:, None] - dk[:]) / -sqwidth\n", 1),
+    ("expression_parameter_selected_by_vary", "C11", "parameter/parameters.py", "            if not exclude_non_vary or (parameter.vary and parameter.expression is None):", "            if not exclude_non_vary or parameter.vary:", 1),
     ("dof_without_clps", "C13", "optimization/optimizer.py", '                - result_args["number_of_clps"]\n', "", 1),
     ("rmse_not_sqrt", "C13", "optimization/optimizer.py", 'np.sqrt(result_args["reduced_chi_square"])', 'result_args["reduced_chi_square"]', 1),
     ("covariance_unmasked", "C13", "optimization/optimizer.py", "mask = jacobian_sv_square > np.finfo(float).eps", "mask = jacobian_sv_square > -1", 1),
